@@ -1153,3 +1153,137 @@ func ruleC07Merge(c *Ctx) {
 	}})
 	c.Floor(rule, 7)
 }
+
+// ---------------------------------------------------------------------------
+// C06-RUN: a pending run of blocks to punch (file, offset, length) is extended only by a block
+// that continues it: the increment of the run length is cut off by the equality
+// current == offset + length (contiguity).  Without it, blocks that lie between two members of
+// the run - and are stored nowhere else - are punched with it.
+// ---------------------------------------------------------------------------
+
+func phiClosure(v ssa.Value) map[ssa.Value]bool {
+	seen := map[ssa.Value]bool{}
+	var walk func(x ssa.Value)
+	walk = func(x ssa.Value) {
+		for {
+			switch y := x.(type) {
+			case *ssa.Convert:
+				x = y.X
+				continue
+			case *ssa.ChangeType:
+				x = y.X
+				continue
+			}
+			break
+		}
+		if seen[x] {
+			return
+		}
+		seen[x] = true
+		switch y := x.(type) {
+		case *ssa.Phi:
+			for _, e := range y.Edges {
+				walk(e)
+			}
+		case *ssa.BinOp:
+			// length+1, offset kept: follow the variable through its own increments
+			if y.Op == token.ADD {
+				if c, ok := y.Y.(*ssa.Const); ok && c.Value != nil && c.Value.String() == "1" {
+					walk(y.X)
+				}
+			}
+		}
+	}
+	walk(v)
+	return seen
+}
+
+func stripConv(x ssa.Value) ssa.Value {
+	for {
+		switch y := x.(type) {
+		case *ssa.Convert:
+			x = y.X
+			continue
+		case *ssa.ChangeType:
+			x = y.X
+			continue
+		}
+		return x
+	}
+}
+
+func ruleC06Run(c *Ctx) {
+	const rule = "C06-RUN"
+	c.Doc(rule, "every run of blocks handed to sendToCreateHole(file, offset*sectorSize, length*sectorSize) whose length is accumulated in a loop is extended (length+1) only on the equality edge of a contiguity test current == offset + length over the same two variables")
+	incs := 0
+	for _, fn := range pkgFuncs(c.P, "replica") {
+		sites := CallsTo(fn, "replica.sendToCreateHole")
+		done := map[ssa.Value]bool{}
+		for _, s := range sites {
+			args := s.(*ssa.Call).Call.Args
+			if len(args) < 3 {
+				continue
+			}
+			factor := func(v ssa.Value) ssa.Value {
+				if m, ok := stripConv(v).(*ssa.BinOp); ok && m.Op == token.MUL {
+					return m.X
+				}
+				return nil
+			}
+			ov, lv := factor(args[1]), factor(args[2])
+			if ov == nil || lv == nil {
+				continue // single block / parameters: no accumulated run here
+			}
+			oc, lc := phiClosure(ov), phiClosure(lv)
+			// contiguity tests
+			var tests []*ssa.BinOp
+			eachInstr(fn, func(in ssa.Instruction) {
+				bo, ok := in.(*ssa.BinOp)
+				if !ok || (bo.Op != token.EQL && bo.Op != token.NEQ) {
+					return
+				}
+				for _, side := range []ssa.Value{bo.X, bo.Y} {
+					if sum, ok := stripConv(side).(*ssa.BinOp); ok && sum.Op == token.ADD {
+						a, b := stripConv(sum.X), stripConv(sum.Y)
+						if (oc[a] && lc[b]) || (oc[b] && lc[a]) {
+							tests = append(tests, bo)
+						}
+					}
+				}
+			})
+			eqEdge := func(b *ssa.BasicBlock, k int) bool {
+				if len(b.Instrs) == 0 {
+					return false
+				}
+				iff, ok := b.Instrs[len(b.Instrs)-1].(*ssa.If)
+				if !ok {
+					return false
+				}
+				for _, t := range tests {
+					if iff.Cond == ssa.Value(t) {
+						return (t.Op == token.EQL) == (k == 0)
+					}
+				}
+				return false
+			}
+			for v := range lc {
+				inc, ok := v.(*ssa.BinOp)
+				if !ok || inc.Op != token.ADD || done[inc] {
+					continue
+				}
+				done[inc] = true
+				incs++
+				key := FnName(fn) + " | run extended only by the adjacent block"
+				ws := Query{Fn: fn, IsSite: func(in ssa.Instruction) bool { return in == ssa.Instruction(inc) }, GenEdge: eqEdge}.Run()
+				if len(tests) > 0 && len(ws) == 0 {
+					c.OK(rule, key, c.P.InstrPos(inc), "length+1 is cut off by current == offset + length", true)
+				} else {
+					c.Bad(rule, key, c.P.InstrPos(inc), "the pending run (offset, length) is extended by a block that is not known to be adjacent to it (no equality current == offset + length on the way): blocks in between would be punched with the run", c.witnessOr(ws))
+				}
+			}
+		}
+	}
+	if incs < 3 {
+		c.Undecided(rule, "vacuity-floor", "", fmt.Sprintf("only %d accumulated punch runs found (expected 3: preload, fullWriteAt, UpdateLUNMap)", incs))
+	}
+}
